@@ -80,6 +80,8 @@ pub struct SSt {
 }
 
 pub struct SG {
+    /// length of the one large media message in the alphabet (more than two chunks at the configured size)
+    pub big: usize,
     c: Counters,
 }
 
@@ -225,7 +227,7 @@ impl Graph for SG {
         for &sid in targets.iter().take(2) {
             v.push(SAct::SendAudio { sid, ts: 0xFF_FFFF, len: 3, droppable: true });
             v.push(SAct::SendAudio { sid, ts: 5, len: 0, droppable: false });
-            v.push(SAct::SendVideo { sid, ts: 0xFFFF_FFFF, len: 200, droppable: true });
+            v.push(SAct::SendVideo { sid, ts: 0xFFFF_FFFF, len: self.big, droppable: true });
             v.push(SAct::SendVideo { sid, ts: 0x100_0000, len: 3, droppable: false });
             v.push(SAct::SendMeta { sid, variant: 5 });
         }
@@ -363,6 +365,7 @@ pub struct CStt {
 }
 
 pub struct CG {
+    pub big: usize,
     c: Counters,
 }
 
@@ -386,7 +389,7 @@ impl Graph for CG {
         v.push(CAct::StopPublishing);
         if m.st == CSt::Publishing {
             v.push(CAct::PublishMeta { variant: 5 });
-            v.push(CAct::PublishVideo { ts: 0xFFFF_FFFF, len: 200, droppable: true });
+            v.push(CAct::PublishVideo { ts: 0xFFFF_FFFF, len: self.big, droppable: true });
             v.push(CAct::PublishVideo { ts: 0x100_0000, len: 3, droppable: false });
             v.push(CAct::PublishAudio { ts: 0xFF_FFFF, len: 3, droppable: true });
             v.push(CAct::PublishAudio { ts: 5, len: 0, droppable: false });
@@ -561,6 +564,10 @@ pub fn run(run: &Run) {
             splans.push((format!("server chunk size {}: publishing and playing", cs), cs, busy.clone(), d));
         }
     }
+    // chunk sizes above the buffering thresholds one might find in a serializer (4 KiB, 64 KiB): busy session only
+    for &cs in if thorough { &[5_000u32, 70_000][..] } else { &[5_000u32][..] } {
+        splans.push((format!("server chunk size {}: publishing and playing", cs), cs, busy.clone(), 3));
+    }
     // a peer that announced an acknowledgement window first: acknowledgements interleave from the start
     for &cs in &[128u32, 1] {
         let w = SAct::Raw { msid: 0, type_id: 5, body: vec![0, 0, 0, 40] };
@@ -572,7 +579,7 @@ pub fn run(run: &Run) {
         splans.push((format!("server chunk size {}: peer window 40 announced, publishing and playing", cs), cs, p, if thorough { 5 } else { 3 }));
     }
     for (name, cs, prefix, depth) in splans {
-        let g = SG { c: Counters::new(&NAMES) };
+        let g = SG { c: Counters::new(&NAMES), big: if cs > 128 { 2 * cs as usize + 2_000 } else { 200 } };
         let mut cur = match server_start(cs) {
             Ok(s) => s,
             Err((sig, d)) => {
@@ -618,9 +625,12 @@ pub fn run(run: &Run) {
 
     // ---- client ----
     let prefs = c10::prefixes();
-    for &cs in if thorough { &[128u32, 1, 4096][..] } else { &[128u32, 1][..] } {
+    for &cs in if thorough { &[128u32, 1, 4096, 5_000, 70_000][..] } else { &[128u32, 1, 5_000][..] } {
         for (pi, (pname, prefix)) in prefs.iter().enumerate() {
             if !thorough && !(pi == 0 || pi == 5 || pi == 2) {
+                continue;
+            }
+            if cs >= 5_000 && pi != 5 {
                 continue;
             }
             for &up in &[0u64, 0xFF_FFFE, 0xFFFF_FFFE] {
@@ -628,7 +638,7 @@ pub fn run(run: &Run) {
                     continue;
                 }
                 let name = format!("client chunk size {}: {} at uptime {} ms", cs, pname, up);
-                let g = CG { c: Counters::new(&NAMES) };
+                let g = CG { c: Counters::new(&NAMES), big: if cs > 128 { 2 * cs as usize + 2_000 } else { 200 } };
                 let mut cur = match client_start(cs) {
                     Ok(s) => s,
                     Err((sig, d)) => {
